@@ -4,6 +4,8 @@ import re
 import hir as H
 import mir as M
 import rulelib as L
+import symrules as SR
+import sym as SY
 
 CRATES = ["identity_document", "identity_verification", "identity_core"]
 CD = "identity_document::document::core_document::CoreDocument"
@@ -102,65 +104,91 @@ def run(F, R, tier):
                 fields |= data_field_of(n, env)
         r2.site("verification_relationships chains %s" % sorted(fields & set(REL_FIELDS)))
         r2.require(fields & set(REL_FIELDS) == set(REL_FIELDS), (CD + "::verification_relationships", "all-five"), "verification_relationships() does not chain all five relationship sets: %s" % sorted(fields))
-    ck = F.hir(CDD + "::check_id_constraints")
-    if r2.anchor(ck, "check_id_constraints"):
-        env = H.Env(ck)
-        loops = L.for_loops(ck)
+    GATE_OPQ = r"Queryable.*::query$|OrderedSet::append$|CoreDocument::resolve_method$"
+
+    def elem_sources(q):
+        """collections (field names of CoreDocumentData) from which a generic element was drawn on path q"""
+        out = set()
+        for (a, c, _, _) in q.decisions:
+            for t_ in a[1:]:
+                if not isinstance(t_, tuple):
+                    continue
+                for x in SY.subterms(t_):
+                    if isinstance(x, tuple) and x[:1] == ("elem",):
+                        for y in SY.subterms(x[1]):
+                            if isinstance(y, tuple) and y[:1] == ("field",) and y[2] in GUARDED:
+                                out.add(y[2])
+        return out
+
+    def collision_witnesses(tab, err, id_root):
+        """{(collection, entry kind)} for which some path rejecting with `err` established entry-id == the new id"""
+        w = set()
+        for q in tab.err():
+            if SR.err_name(q.ret) != err:
+                continue
+            for (a, c, _, _) in q.decisions:
+                if a[0] != "eq" or c is not True:
+                    continue
+                for x, y in ((a[1], a[2]), (a[2], a[1])):
+                    if not SR.derives(y, id_root):
+                        continue
+                    for z in SY.subterms(x):
+                        if isinstance(z, tuple) and z[:1] == ("elem",):
+                            coll = [u[2] for u in SY.subterms(z[1]) if isinstance(u, tuple) and u[:1] == ("field",) and u[2] in GUARDED]
+                            kind = "Embed" if ("payload", z, "Embed", 0) in list(SY.subterms(x)) else ("Refer" if ("payload", z, "Refer", 0) in list(SY.subterms(x)) else "entry")
+                            for c_ in coll:
+                                w.add((c_, kind))
+        return w
+
+    ck = CDD + "::check_id_constraints"
+    if r2.anchor(F.hir(ck), "check_id_constraints"):
+        tab = SR.Table(F, ck, rule=r2, max_paths=8000)
         cov = set()
-        for it, pat, body, _ in loops:
-            for n in H.walk(it):
-                if n.get("k") == "field":
-                    for o in H.origins(n, env):
-                        if o[:2] == ("param", "self") and len(o) > 2:
-                            cov.add(o[2])
+        for q in tab.paths:
+            cov |= elem_sources(q)
         r2.site("check_id_constraints scans %s" % sorted(cov))
-        r2.require(set(GUARDED) <= cov, (CDD + "::check_id_constraints", "universe"), "check_id_constraints does not scan all seven collections: missing %s" % sorted(set(GUARDED) - cov))
-        errs = [e for e in L.exit_infos(ck)[1] if not L.is_success_exit(e)]
-        r2.require(len(errs) >= 4, (CDD + "::check_id_constraints", "rejections"), "check_id_constraints has %d rejection exits, expected 4 (duplicate embedded, aliased embedded ×2 orders, duplicated general/embedded, service id clash)" % len(errs))
+        r2.require(set(GUARDED) <= cov or not tab.paths, (ck, "universe"), "check_id_constraints does not scan all seven collections: missing %s" % sorted(set(GUARDED) - cov))
+        errs = {q.describe()[-80:] for q in tab.err()}
+        r2.require(len(tab.err()) >= 4 or not tab.paths, (ck, "rejections"), "check_id_constraints has %d rejecting paths, expected at least 4 (duplicate embedded, alias of an embedded method, dangling reference, service id)" % len(tab.err()))
     # insert_service
     fn = CD + "::insert_service"
-    h = F.hir(fn)
-    if r2.anchor(h, fn):
-        env = H.Env(h)
-        d = [n for n in H.walk(H.root(h)) if n.get("k") == "let" and any(b[0] == "id_exists" for b in H.pat_bindings(n["pat"]))]
-        if r2.require(len(d) == 1, (fn, "id_exists"), "definition of id_exists not found"):
-            fns = {f.rsplit("::", 1)[-1] for f in H.called_fns(d[0]["init"])}
-            r2.site("insert_service gate consults %s" % sorted(fns & {"verification_relationships", "verification_method", "all_methods", "methods", "any"}), d[0]["sp"])
-            r2.require("verification_relationships" in fns, (fn, "universe", "relationships"), "insert_service does not compare against the raw ids of all relationship entries (references that do not resolve would be invisible)")
-            r2.require("verification_method" in fns, (fn, "universe", "verification_method"), "insert_service does not compare against the general-purpose methods")
-            cmps = [c for c in H.comparisons(d[0]["init"], ("Eq",))]
-            okc = any(H.local_name(c["r"]) == "service_id" or H.local_name(c["l"]) == "service_id" for c in cmps)
-            r2.require(okc and "any" in fns, (fn, "compare"), "insert_service does not test `any(|id| id == service_id)`")
-            ids = [n for n in H.walk(d[0]["init"]) if n.get("k") == "mcall" and n["name"] == "id"]
-            r2.require(len(ids) >= 2, (fn, "raw-ids"), "insert_service does not project entries to their raw ids")
+    if r2.anchor(F.hir(fn), fn):
+        tab = SR.Table(F, fn, opaque=GATE_OPQ, rule=r2, max_paths=8000)
+        w = collision_witnesses(tab, "InvalidServiceInsertion", SR.param("service"))
+        r2.site("insert_service rejects an id equal to the raw id of: %s" % sorted(w))
+        missing_rel = [c_ for c_ in REL_FIELDS if not {(c_, "Embed"), (c_, "Refer")} <= w]
+        r2.require(not missing_rel or not tab.paths, (fn, "universe", "relationships"), "insert_service does not compare against the raw ids of all relationship entries (embedded and referenced): missing %s" % missing_rel)
+        r2.require(any(c_ == "verification_method" for c_, _ in w) or not tab.paths, (fn, "universe", "verification_method"), "insert_service does not compare against the general-purpose methods")
+        for q in tab.ok():
+            r2.require(not any(a[0] == "eq" and c is True and SR.derives(a[1], SR.param("service")) != SR.derives(a[2], SR.param("service")) and any(isinstance(z, tuple) and z[:1] == ("elem",) for z in SY.subterms(a[1] if SR.derives(a[2], SR.param("service")) else a[2]))
+                               for (a, c, _, _) in q.decisions), (fn, "compare"), "insert_service accepts although an existing entry has the same id — path: %s" % q.describe()[-200:])
     # insert_method
     fn = CD + "::insert_method"
-    h = F.hir(fn)
-    if r2.anchor(h, fn):
-        env = H.Env(h)
-        gs = L.block_guards(H.root(h))
-        ok = False
-        for cond, oc, node in gs:
-            if oc != "Err(MethodInsertionError)":
+    if r2.anchor(F.hir(fn), fn):
+        tab = SR.Table(F, fn, opaque=GATE_OPQ, rule=r2, max_paths=8000)
+        w = collision_witnesses(tab, "MethodInsertionError", SR.param("method"))
+        kinds = set()
+        if all({(c_, "Embed"), (c_, "Refer")} <= w for c_ in REL_FIELDS):
+            kinds.add("raw-relationships")
+        for q in tab.err():
+            if SR.err_name(q.ret) != "MethodInsertionError":
                 continue
-            ds = H.disjuncts(cond)
-            kinds = set()
-            for dj in ds:
-                fns = {f.rsplit("::", 1)[-1] for f in H.called_fns(dj)}
-                if "resolve_method" in fns and "is_some" in fns:
+            for e in q.calls(r"CoreDocument::resolve_method$"):
+                if q.succeeded(e) is True and SR.derives(e.args[1], SR.param("method")):
                     kinds.add("resolve_method")
-                if "service" in fns and "query" in fns and "is_some" in fns:
+            for e in q.calls(r"Queryable.*::query$"):
+                if q.succeeded(e) is True and SR.derives(e.args[1], SR.param("method")) and "service" in SY.fmt(SY.term(e.args[0])):
                     kinds.add("service")
-                if "verification_relationships" in fns and "any" in fns:
-                    cmps = H.comparisons(dj, ("Eq",))
-                    if any({f.rsplit("::", 1)[-1] for f in H.called_fns(c)} >= {"id"} for c in cmps):
-                        kinds.add("raw-relationships")
-            r2.site("insert_method gate disjuncts: %s" % sorted(kinds), node["sp"])
-            ok = kinds == {"resolve_method", "service", "raw-relationships"}
-            if not ok:
-                r2.fail((fn, "universe", ",".join(sorted({"resolve_method", "service", "raw-relationships"} - kinds))),
-                        "insert_method's id gate does not consult %s: an id already used by such an entry can be inserted again" % sorted({"resolve_method", "service", "raw-relationships"} - kinds), node["sp"])
-        r2.require(any(oc == "Err(MethodInsertionError)" for _, oc, _ in gs), (fn, "gate"), "insert_method has no top-level MethodInsertionError guard")
+        r2.site("insert_method gate rejects on: %s (relationship witnesses %s)" % (sorted(kinds), sorted(w)))
+        want = {"resolve_method", "service", "raw-relationships"}
+        if tab.paths and kinds != want:
+            r2.fail((fn, "universe", ",".join(sorted(want - kinds))), "insert_method's id gate does not consult %s: an id already used by such an entry can be inserted again" % sorted(want - kinds))
+        r2.require(bool(tab.err()) or not tab.paths, (fn, "gate"), "insert_method never rejects with MethodInsertionError")
+        # the insertion (append) happens only on paths where all three were negative
+        for q in tab.paths:
+            if q.calls(r"OrderedSet::append$"):
+                neg = any(q.succeeded(e) is False for e in q.calls(r"CoreDocument::resolve_method$")) and any(q.succeeded(e) is False for e in q.calls(r"Queryable.*::query$"))
+                r2.require(neg, (fn, "gate-before-insert"), "insert_method appends without resolve_method and the service query having come back empty — path: %s" % q.describe()[:200])
     r2.floor(4)
 
     # ------------------------------------------------------------------ R3 guarded insertion, R4 refusal leaves the document unchanged
